@@ -30,14 +30,14 @@ PROPS = {
                 gen=parse_family('C02', 3000, 40000), flavours=['c'],
                 rule='random grammars with random translations (permuted, partial, nil-padded, pass-through, empty); sentences <= 7 tokens; one_parse=1 cost=0; tree compared with the enumerated translations of all derivations',
                 assumptions=COMMON_ASSUME + ['enumeration capped at 3000 derivations per input and 9 tokens (depth_bound: the enumerator is complete for every accepted grammar)', 'C02 is a theorem about the step-for-step models: for every grammar readGrammar accepts and every sentence, the model of make_parse in one-parse mode, run on the parse list of the model of build_pl (levels 0/1), ends within an explicit fuel bound with a table without ALT node that denotes exactly the translation of a derivation of the input, TERM nodes carrying code and position of their tokens (accepted_makeParse_one, makeParse_one_sound, makeParse_one_total, makeParse_one_terms); the two step models are tied to the C code on every parse (identical exports)']),
-    'C03': dict(level='proof', theorem_modules=['C03', 'C02', 'MakeParse', 'MakeParseSound'], min_theorems=20, tags=['C03'], crash_counts=True,
+    'C03': dict(level='proof', theorem_modules=['C03', 'C02', 'MakeParse', 'MakeParseSound', 'MakeParseTotal', 'HeapWf'], min_theorems=30, tags=['C03'], crash_counts=True,
                 gen=parse_family('C03', 3000, 40000), flavours=['c'],
                 rule='as C02 with one_parse=0: set of trees denoted by the DAG vs set of translations of all derivations',
-                assumptions=COMMON_ASSUME + ['the sound half of C03 is a theorem about the step model of make_parse (makeParse_all_sound: every tree the all-parses forest denotes is the translation of a derivation of the input, for every accepted grammar and input); the complete half is false of the C code (known finding D9, makeParse_forest_incomplete) and is judged per run with the attribution rule of known_findings.txt']),
-    'C04': dict(level='proof', theorem_modules=['C04', 'PruneC', 'HeapWf'], min_theorems=26, tags=['C04'], crash_counts=True,
+                assumptions=COMMON_ASSUME + ['the sound half of C03 is a theorem about the step model of make_parse (makeParse_all_sound: every tree the all-parses forest denotes is the translation of a derivation of the input, for every accepted grammar and input); the all-parses run always ends with a well-formed acyclic forest (makeParse_all_total with the explicit fuel mpAllFuel, makeParse_heap_wf, makeParse_all_not_cyclic; the fuel is exponential and must be: known finding D31; polynomial when no pass-through rule derives itself: makeParse_all_total_poly); the complete half is false of the C code (known finding D9, makeParse_forest_incomplete) and is judged per run with the attribution rule of known_findings.txt']),
+    'C04': dict(level='proof', theorem_modules=['C04', 'PruneC', 'HeapWf', 'MakeParseTotal'], min_theorems=30, tags=['C04'], crash_counts=True,
                 gen=parse_family('C04', 3000, 40000), flavours=['c'],
                 rule='random grammars with costs 0-5 (ties included); sentences <= 7 tokens; cost flag on, one_parse in {0,1}, parse_free given or NULL; denoted set vs argmin of total cost over all translations, every cost field vs the additive law',
-                assumptions=COMMON_ASSUME + ['prune theorems are about the Lean pruning model of a forest (Spec/Forest.lean); find_minimal_translation itself (prune_to_minimal with the sign of the cost field as visited flag and the memo table of alternative chains, traverse_pruned_translation, the freeing loop) is modelled step for step on the heap of the make_parse model (Model/PruneC.lean) and proved to denote exactly prune of the unfolded forest, to restore every cost field, and to free exactly the cells that became unreachable, each once (pruneC_denote, pruneC_minimal_all/one, pruneC_costs_restored, pruneC_frees, pruneC_memo_sound) under the heap well-formedness WfHeap, which is proved for every heap the make_parse model builds on the parse list of an accepted input (makeParse_heap_wf; acyclicity from a rank by span length and unit steps); accepted_cost_parse composes the chain for every accepted grammar and sentence: every tree of the forest is a translation, the pruned result denotes exactly the minimal-cost trees of the forest make_parse built (not of all translations: D9) with accumulated cost fields, and the freed cells are exactly those that became unreachable, each once; totality of the all-parses run is a hypothesis there (proved for one-parse mode only); the tie runs both models on the dumped parse list and compares the exported forest and the number of freed blocks']),
+                assumptions=COMMON_ASSUME + ['prune theorems are about the Lean pruning model of a forest (Spec/Forest.lean); find_minimal_translation itself (prune_to_minimal with the sign of the cost field as visited flag and the memo table of alternative chains, traverse_pruned_translation, the freeing loop) is modelled step for step on the heap of the make_parse model (Model/PruneC.lean) and proved to denote exactly prune of the unfolded forest, to restore every cost field, and to free exactly the cells that became unreachable, each once (pruneC_denote, pruneC_minimal_all/one, pruneC_costs_restored, pruneC_frees, pruneC_memo_sound) under the heap well-formedness WfHeap, which is proved for every heap the make_parse model builds on the parse list of an accepted input (makeParse_heap_wf; acyclicity from a rank by span length and unit steps); accepted_cost_parse composes the chain for every accepted grammar and sentence: every tree of the forest is a translation, the pruned result denotes exactly the minimal-cost trees of the forest make_parse built (not of all translations: D9) with accumulated cost fields, and the freed cells are exactly those that became unreachable, each once; accepted_cost_parse_total removes the last hypothesis (the all-parses run of the make_parse model always ends: makeParse_all_total); the tie runs both models on the dumped parse list and compares the exported forest and the number of freed blocks']),
     'C06': dict(level='proof', theorem_modules=['C06', 'C01'], min_theorems=12, tags=['C06'], crash_counts=True,
                 gen=parse_family('C06', 3000, 40000, maxlen=9), flavours=['c'],
                 rule='grammars with and without error rules; non-sentences (mutated sentences, prefixes, random strings); recovery off (exact argument tuple) and on (well-formedness of every callback, strictly increasing error tokens, first error token = model)',
@@ -56,10 +56,10 @@ PROPS = {
                                        gen.gen_parse_cases(seed + 6, 1500 if tier == 'thorough' else 150, 'C09', maxlen=9, kind='stmt-list'), flavours=['c'],
                 rule='each input parsed at lookahead -3,0,1,2,7 and at several debug levels with otherwise identical flags: all observables (rc, callbacks, ambiguity flag, denoted tree set with costs) must be identical; goto-cache self-check hook on every parse',
                 assumptions=COMMON_ASSUME + ['verdict_indep_of_la012 / firstError_indep_of_la012 cover all three levels (level 2: accepts2_iff_sentence); the level-2 set construction of the C code (contexts, the in-place context fixpoint of expand_new_start_set) is modelled step for step (Model/BuildSet2.lean) and proved to compute the level-2 set model (buildPLC2_eq_buildPL2, ctxLoop_least_fixpoint, ctxLoop_order_irrelevant, acceptsC_indep_of_la012)']),
-    'C05': dict(level='proof', theorem_modules=['C05', 'MakeParseSound'], min_theorems=12, tags=['C05'], crash_counts=True,
+    'C05': dict(level='proof', theorem_modules=['C05', 'MakeParseSound', 'MakeParseFlag'], min_theorems=24, tags=['C05'], crash_counts=True,
                 gen=parse_family('C05', 3000, 40000), flavours=['c'],
                 rule='ambiguity flag vs number of derivations / distinct translations, one_parse in {0,1}',
-                assumptions=COMMON_ASSUME + ['soundness of the flag is proved for the one-parse step model only under the hypothesis that no set of the parse list holds a situation twice (makeParse_one_amb_sound_partial; the C sets can hold an item twice, as a start and as a derived situation, and the example dupGrammar shows it); the rest of C05 rests on the per-run comparison with the enumerated derivations']),
+                assumptions=COMMON_ASSUME + ['C05 is a theorem about the step models in both modes (Props/MakeParseFlag.lean): the flag is set only if the input has two different derivations (makeParse_one_amb_sound, makeParse_all_amb_sound: no hypothesis on duplicates in the sets -- an item held twice by a set of the build_pl model has two different derivations, dup_two_kids), and two derivations with different translations force it (makeParse_one_amb_complete, makeParse_all_amb_complete; accepted_amb_flag for every accepted grammar and user tokens); an input containing the code of `error` itself is outside these theorems (the example errTokGrammar shows the flag can stay off there) and outside the property (declared terminal codes of the user)']),
     'C10': dict(level='proof', theorem_modules=['C10', 'Generated', 'AnalysisC'], min_theorems=24, tags=['C10'], crash_counts=True,
                 gen=lambda seed, tier: gen.gen_def_cases(seed, 20000 if tier == 'thorough' else 2500), flavours=['c'],
                 rule='random (mostly defective) terminal/rule lists through the callbacks, every defect class alone and in pairs, strict in {0,1}; return code vs model, symbol flags and rules vs model',
@@ -78,7 +78,7 @@ PROPS = {
                                         gen.gen_name_length_cases(seed + 5, 1500 if tier == 'thorough' else 250)), flavours=['c', 'cxx'],
                 rule='the case families of C01, C07, C14/C15 and C11 plus grammars with hundreds of symbols (C++ containers grow past their initial sizes) are run through libyaep and through class yaep (libyaep++); the two observation streams (return codes, messages, callbacks, flags, exported trees, free_tree traces, hook dumps) must be identical line by line, and both are judged against the same Lean model',
                 assumptions=COMMON_ASSUME + ['cxx_methods_forward is about the method bodies the translator extracts from yaep.cpp (regex-based, checked for one statement per method); that yaep.cpp includes yaep.c compiled as C++ and uses the C++ containers is covered by the stream comparison, not by a theorem']),
-    'C12': dict(level='exploration', theorem_modules=['C01', 'C19', 'CodeTable', 'TermSet', 'SitTable'], min_theorems=4, tags=['C12'], crash_counts=True,
+    'C12': dict(level='exploration', theorem_modules=['C01', 'C19', 'CodeTable', 'TermSet', 'SitTable', 'MakeParseTotal'], min_theorems=4, tags=['C12'], crash_counts=True,
                 gen=lambda seed, tier: (gen.gen_hostile_cases(seed, 30000 if tier == 'thorough' else 2500) +
                                         gen.gen_parse_cases(seed + 1, 6000 if tier == 'thorough' else 400, 'C07', maxlen=9) +
                                         gen.gen_parse_cases(seed + 2, 6000 if tier == 'thorough' else 400, 'C04') +
